@@ -864,6 +864,31 @@ def kind_matrix():
     return out
 
 
+def exhaustive_small():
+    """every ordered pair (x 12 inputs) and every ordered triple (x 6 inputs) of 8 leaves under |, ^, &"""
+    names = ["int", "str", "float", "PosInt", "Slug", "Dotted", "List[int]", "DcA"]
+    pool = [d for n in names for d in LEAF_POOL if (d.get("name") or d.get("spec")) == n]
+    assert len(pool) == len(names)
+    leaves = [NONE_LEAF] + pool
+    vals = [{"s": "3"}, {"s": "3.0"}, {"s": "abc"}, {"i": "3"}, {"i": "-3"}, {"f": "3.0"}, {"f": "3.5"}, {"b": "3"},
+            {"l": [{"i": "1"}, {"s": "2"}]}, {"m": [[{"s": "a"}, {"s": "1"}]]}, True, {"inst": "DcA", "kw": [["a", {"i": "1"}]]}]
+
+    def expr(op, perm):
+        if leaves[perm[0]]["kind"] in UTYPE_KINDS or leaves[perm[1]]["kind"] in UTYPE_KINDS:
+            return chain(op, list(perm))
+        return {"call": op, "args": [{"atom": p} for p in perm]}
+
+    out = []
+    for op in "|^&":
+        for perm in itertools.permutations(range(1, len(leaves)), 2):
+            for v in vals:
+                out.append({"leaves": leaves, "defs": [expr(op, perm)], "opts": {}, "value": v})
+        for perm in itertools.permutations(range(1, 7), 3):
+            for v in vals[:6]:
+                out.append({"leaves": leaves, "defs": [expr(op, perm)], "opts": {}, "value": v})
+    return out
+
+
 # ------------------------------------------------------------------------------------------------
 
 def norm_ids(s):
@@ -921,6 +946,8 @@ class C09(Check):
         out = []
         if tier != "search":
             out += kind_matrix()
+        if tier == "thorough":
+            out += exhaustive_small()
         out += threading_cases(rng, pr, {"quick": 12, "thorough": 150, "search": 40}.get(tier, 12))
         for _ in range({"quick": 25, "thorough": 300, "search": 60}.get(tier, 25)):
             out += perm_family(rng, pr)
@@ -1079,7 +1106,13 @@ class C09(Check):
         o = io.get("out", {})
         res = "ok" if "ok" in o else o.get("err", {}).get("e", "?")
         flags = "+".join(sorted(k for k, v in case["opts"].items() if v)) or "default"
-        return f"root={root}/depth={depth}/{res}/{flags}" + ("/incomplete" if io.get("incomplete") else "")
+        # C12's subset law on the measured leaves (hypothesis `Mono` of C09_union_accepts_iff): made visible here
+        t = {(l, a, b, v): o for l, a, b, v, o in io.get("table", [])}
+        base = tuple(io["variants"][0]) if io.get("variants") else (False, False)
+        mono_bad = any((a, b) != base and "ok" in o and "ok" not in t.get((l, base[0], base[1], v), {"ok": 0})
+                       for (l, a, b, v), o in t.items())
+        return (f"root={root}/depth={depth}/{res}/{flags}" + ("/incomplete" if io.get("incomplete") else "")
+                + ("/leaf-not-monotone" if mono_bad else ""))
 
     def neighbours(self, case, rng):
         out = [dict(case, defs=[mirror(d) for d in case["defs"]])]
@@ -1092,6 +1125,11 @@ class C09(Check):
     def finish_evidence(self, ev, tier):
         ev["coverage"]["leaf_pool"] = len(LEAF_POOL)
         ev["coverage"]["value_pool"] = len(VALUE_POOL)
+        ev["coverage"]["exhaustive"] = False
+        if tier == "thorough":
+            ev["coverage"]["exhaustive_part"] = ("every ordered pair of 8 leaves x 12 inputs and every ordered triple of 6 leaves "
+                                                 "x 6 inputs under |, ^, & (default options); every ordered pair of 14 operand kinds "
+                                                 "under |, ^, & and ~/~~/not_of of each kind")
 
 
 CHECK = C09()
